@@ -45,7 +45,7 @@ var Float32Pool = []string{
 // StrPool: code-point vs byte vs UTF-16 length differ; JSON-Pointer and URI escapes.
 var StrPool = []string{
 	"", "a", "b", "ab", "abc", "abcd", "\u00e9", "e\u0301", "日本", "😀", "a/b", "~", "~0", "~1", "%",
-	"a b", "0", "1", "01", "-", "$ref", "A", "aa", "ba",
+	"a b", "0", "1", "01", "-", "$ref", "A", "aa", "ba", "bc", "c", "\x01",
 }
 
 // KeyPool: object member names shared between schemas and instances.
